@@ -59,6 +59,35 @@ def eval_cond(t, lam, L):
         return t[1]
     if t == L:
         return lam
+    # constant tables of thresholds (file-scope const arrays with literal initialisers, _TABLES): an element read is its value;
+    # a pointer into the table is its element index (differences of such pointers are what the selector computes with)
+    if k == "glob" and t[1] in _TABLES:
+        return 0
+    if k == "idx" and t[1][0] == "glob" and t[1][1] in _TABLES:
+        i = eval_cond(t[2], lam, L)
+        tb = _TABLES[t[1][1]]
+        return tb[i] if isinstance(i, int) and not isinstance(i, bool) and 0 <= i < len(tb) else None
+    if k == "addr" and t[1][0] == "idx" and t[1][1][0] == "glob" and t[1][1][1] in _TABLES:
+        i = eval_cond(t[1][2], lam, L)
+        return i if isinstance(i, int) and not isinstance(i, bool) and 0 <= i <= len(_TABLES[t[1][1][1]]) else None
+    if k == "obj" and t[1] in ("std::lower_bound", "std::upper_bound") and len(t[2]) == 3:
+        # binary search of the request in a sorted constant table: the position is the count of elements < (<=) the value
+        roots = {sym.root_of(a) for a in t[2][:2]}
+        if len(roots) != 1 or None in roots:
+            return None
+        r = roots.pop()
+        if r[0] != "glob" or r[1] not in _TABLES:
+            return None
+        tb = _TABLES[r[1]]
+        lo, hi, x = (eval_cond(a, lam, L) for a in t[2])
+        if lo is None or hi is None or x is None or not (0 <= lo <= hi <= len(tb)):
+            return None
+        seg = tb[lo:hi]
+        if seg != sorted(seg):
+            return None          # precondition of the algorithm violated: undefined, not decided
+        if t[1] == "std::lower_bound":
+            return lo + sum(1 for e in seg if e < x)
+        return lo + sum(1 for e in seg if e <= x)
     if k == "op":
         a, b = eval_cond(t[2], lam, L), eval_cond(t[3], lam, L)
         if a is None or b is None:
@@ -80,6 +109,31 @@ def eval_cond(t, lam, L):
             r += p
         return r
     return None
+
+
+_TABLES = {}
+
+
+def const_int_tables(v):
+    """file-scope const arrays of integers whose initialiser is a full list of literals (the compiler rejects any write to them)"""
+    out = {}
+    for s_ in v.statics.values():
+        ini = s_.get("init")
+        if not (s_.get("definition") and s_.get("const") and ini and ini.get("k") == "initlist" and not s_.get("static_local")):
+            continue
+        m = re.match(r"const (?:int|unsigned int|long|unsigned long|short|unsigned short)\[(\d+)\]$", s_.get("t", ""))
+        vals = []
+        for a in ini.get("args", []):
+            while a.get("k") == "cast" and a.get("implicit"):
+                a = a["a"]
+            cv = a.get("cv", a.get("v") if a.get("k") == "int" else None)
+            if cv is None or not re.match(r"-?\d+$", str(cv)):
+                vals = None
+                break
+            vals.append(int(cv))
+        if m and vals is not None and len(vals) == int(m.group(1)):
+            out[s_["name"]] = vals
+    return out
 
 
 def outcome(effects, lam, L):
@@ -244,10 +298,14 @@ def selected_parameter_sets(chk, v):
     L = sym.sym(sel.params[0]["n"])
     eff, st, ex = run_function(v, sel, hooks=Hooks())
     lits = set()
+    _TABLES.clear()
+    _TABLES.update(const_int_tables(v))
     for x in flat(eff):
         if x["e"] == "if":
             for a in _ints(x["cond"]):
                 lits.add(a)
+            for g in _globs(x["cond"]):
+                lits.update(_TABLES.get(g, ()))     # thresholds kept in a constant table delimit regions like literals do
     points = sorted({INT32_MIN, INT32_MAX, 0, 1} | {c + d for c in lits for d in (-1, 0, 1)})
     points = [p for p in points if INT32_MIN <= p <= INT32_MAX]
     chk.set_count("R1.region_representatives", len(points))
@@ -379,6 +437,15 @@ def run(chk):
         chk.require(len(ext) == 1 and ext[0]["val"] == sym.mul(N, K), "R3", "extracted LWE dimension == k*N",
                     where=ctor[0].where, ok="extracted_lweparams.n = %s" % (sym.show(ext[0]["val"]) if ext else None),
                     bad="extracted_lweparams.n = %s" % (sym.show(ext[0]["val"]) if ext else None), variant=vn)
+
+
+def _globs(t):
+    if isinstance(t, (tuple, list)):
+        if len(t) == 2 and t[0] == "glob" and isinstance(t[1], str):
+            yield t[1]
+        else:
+            for x in t:
+                yield from _globs(x)
 
 
 def _ints(t):
